@@ -367,15 +367,33 @@ func snapshot() (memSnap, map[string][]uintptr) {
 	return s, st
 }
 
-// allocSite re-runs a deterministic call between two profile snapshots and returns the
-// stack that allocated the most in between.
+// lastSnap is the profile as of the previous attribution (nil: process start, all zero).
+var lastSnap memSnap
+
+// allocSite attributes the over-allocation of the call that just returned. First try, no
+// re-run: publish the profile (two GCs) and look at what each stack allocated since the
+// previous attribution; if exactly one stack accounts for more than half the bound, that is
+// the site. Otherwise (several heavy stacks, e.g. earlier passing calls piled up on another
+// one) fall back to the exact method: re-run the deterministic call between two snapshots.
 func allocSite(call func()) *Site {
-	before, _ := snapshot()
+	after, stacks := snapshot()
+	var heavy []string
+	for k, v := range after {
+		if v-lastSnap[k] > AllocLimit/2 {
+			heavy = append(heavy, k)
+		}
+	}
+	lastSnap = after
+	if len(heavy) == 1 {
+		return siteFromPCs(stacks[heavy[0]])
+	}
+	before := after
 	func() {
 		defer func() { _ = recover() }()
 		call()
 	}()
-	after, stacks := snapshot()
+	after, stacks = snapshot()
+	lastSnap = after
 	var best string
 	var bestDelta int64
 	for k, v := range after {
